@@ -105,6 +105,9 @@ class FortranRegularExpressions:
         r"[ ]*,[ ]*(PUBLIC|PRIVATE|ABSTRACT|EXTENDS[ ]*\([ ]*\w*[ ]*\))", I
     )
     VIS: Pattern = compile(r"[ ]*\b(PUBLIC|PRIVATE)\b", I)
+    VIS_GEN_SPEC: Pattern = compile(
+        r"\b(?:OPERATOR|ASSIGNMENT|READ|WRITE)[ ]*\([^)]*\)", I
+    )
     WORD: Pattern = compile(r"[a-z_][\w\$]*", I)
     NUMBER: Pattern = compile(
         r"[\+\-]?(\b\d+\.?\d*|\.\d+)(_\w+|d[\+\-]?\d+|e[\+\-]?\d+(_\w+)?)?(?!\w)",
